@@ -191,11 +191,12 @@ ObsPickNone == [][(At("Mgr") /\ Ev.cmd \in {"Unchoke", "PieceDone", "PieceCancel
 ObsViewAtRest == [][At("Disk") => \A k \in Conn : h[k].alive /\ ~InFlight(k) /\ wire[k].hs => ((wire[k].ch = "C") <=> mp[k].amCh)]_ovars
 
 \* --- C20 ----------------------------------------------------------------------------------------------------
-\* the keep-alive timer: a keep-alive goes out and the silence counter grows, until the limit ends the task;
+\* the keep-alive timer: a keep-alive goes out and the silence counter grows; the task ends at the limit at the
+\* latest ("within three intervals") and never while the counter is 0 (a message arrived in the last interval);
 \* nothing else ends a task for inactivity; keep-alives from the peer do not count as life, any other frame does
 ObsKeepAlive == [][TaskStep =>
-   /\ Tr.t = "TickKA" => IF h[K].ka >= KALimit THEN Ev.e = "Exit"
-                         ELSE Ev.e = "End" /\ Frames("KeepAlive") # <<>> /\ Ev.hs.ka = h[K].ka + 1
+   /\ Tr.t = "TickKA" => \/ h[K].ka >= 1 /\ Ev.e = "Exit"          \* at least one whole interval of silence; may come before the limit
+                         \/ h[K].ka < KALimit /\ Ev.e = "End" /\ Frames("KeepAlive") # <<>> /\ Ev.hs.ka = h[K].ka + 1
    /\ (Tr.t = "KeepAlive" /\ Ev.e = "End") => Ev.hs.ka = h[K].ka
    /\ (Tr.t \in {"Choke", "Unchoke", "Interested", "NotInterested", "Have", "Bitfield", "Request", "Piece", "Cancel"}
          /\ Ev.e \in {"Call", "End"} /\ h[K].hs) => Ev.hs.ka = 0]_ovars
